@@ -80,6 +80,14 @@ def run(ctx):
                                   "identity (%s)" % to, c["loc"])
         ctx.ok(rule2, "identity", {"fn": IDENTITY, "fs_calls": sorted(set(
             c["to"] for fn in sub for c in g.out.get(fn, []) if c["to"].startswith("std::path::")))})
+        # the exemption covers the SPELLING of a path (absolute, `.` / `..`); resolving names through the file system (symbolic
+        # links) reads state that no input tracks: the memo of a tracked query that reached identity() keeps the old target (F72)
+        resolves = sorted(set(c["to"] for fn in sub for c in g.out.get(fn, [])
+                              if re.match(r"std::path::Path::(canonicalize|read_link)$|std::fs::(canonicalize|read_link)$", c["to"])))
+        ctx.check(not (resolves and IDENTITY in reach), rule2, "identity:name-resolution-untracked",
+                  "SourcePath::identity resolves names through the file system (%s) and is reached from tracked queries: where a "
+                  "symbolic link on an import path points is not a tracked input, so a retargeted link is never reflected" % resolves,
+                  facts.bodies()[IDENTITY]["loc"], detail={"resolves_through": resolves})
     if SOURCE_INPUT in facts.bodies():
         b = ctx.need_mir(rule2, SOURCE_INPUT)
         reads = [(bb, t) for bb, t in b.calls() if t["fn"].startswith("std::fs::")]
@@ -184,9 +192,6 @@ def run(ctx):
     rule_path_spelling(ctx)
     ctx.assume("salsa's own memoisation and revision logic are correct; lru=1 re-materialisation is deterministic (C16)")
     ctx.assume("callers announce disk changes through refresh_disk (contract of the session API)")
-    ctx.assume("the file-system NAME SPACE is stable during a session (symlink targets, renamed directories): path identity is computed "
-               "through the file system inside tracked queries (the audited `identity` cut) and is not a tracked input, so a retargeted "
-               "symlink on an import path is not seen until the importer changes; untested candidate of the round-3 seeding agent")
     from . import c17
     c17.rule_registry_atomic(ctx)
     c17.rule_snapshot_shares(ctx)
